@@ -123,7 +123,7 @@ def cases_(draw):
         dumps.append({'mode': mode, 'update_keys': ukeys, 'rows': rows, 'types': dict(cur_types),
                       'batch': draw(st.sampled_from([None, 1, 2, 1000])), 'bloom': draw(st.sampled_from([None, True, False])),
                       'updated_column': draw(st.booleans())})
-    return {'pk': pk, 'fields': fields, 'dumps': dumps}
+    return {'pk': pk, 'fields': fields, 'dumps': dumps, 'shared_conf': draw(st.integers(0, 3)) == 0}
 
 
 def cases(tier):
@@ -171,7 +171,8 @@ def check(case, ctx):
     d = ctx.tmpdir()
     url = 'sqlite:///' + os.path.join(d, 'db.sqlite')
     fields = case['fields']
-    res = {'name': 'res1', 'fields': fields, 'rows': []}
+    # (the mapped resource and its unmapped sibling have names that differ only where the mapped one has a '.')
+    res = {'name': 'res.1', 'fields': fields, 'rows': []}
     if case['pk']:
         res['pk'] = case['pk']
     model = []
@@ -181,7 +182,7 @@ def check(case, ctx):
     # not mapped to any table: none of them is touched by the dumps into "t1"
     other_fields = [{'name': 'q', 'type': 'integer'}, {'name': 's', 'type': 'string'}]
     other_rows = [{'q': 1, 's': 'keep'}, {'q': 2, 's': None}, {'q': 3, 's': 'é'}]
-    other = {'name': 'other', 'fields': other_fields, 'rows': other_rows}
+    other = {'name': 'res-1', 'fields': other_fields, 'rows': other_rows}
     try:
         with quiet():
             step = dataflows.dump_to_sql({'t1_archive': {'resource-name': 'arch'}, 't10': {'resource-name': 'ten'}}, engine=url)
@@ -190,6 +191,16 @@ def check(case, ctx):
             step.engine.dispose()
     except Exception as e:
         raise unexpected(e, 'setting up the neighbouring tables')
+    shared_conf = {'resource-name': 'res.1'}
+    if case.get('shared_conf'):
+        try:
+            with quiet():
+                step = dataflows.dump_to_sql({'t_shadow': shared_conf}, engine=url)
+                Flow(FeedStep(gen.descriptor_of([dict(other, name='res.1')]), [copy.deepcopy(other_rows)]), step).process()
+                step.engine.dispose()
+        except Exception as e:
+            raise unexpected(e, 'dump into another table with the shared settings dict')
+        classes.append('settings-dict-shared-between-dumps')
     for di, dump in enumerate(case['dumps']):
         mode = dump['mode']
         if dump.get('types'):
@@ -200,7 +211,13 @@ def check(case, ctx):
         other_first = bool(di % 2)
         pkg_ = [other, res] if other_first else [res, other]
         desc = gen.descriptor_of(pkg_)
-        conf = {'resource-name': 'res1'}
+        if case.get('shared_conf'):
+            # one settings dict object serves every dump of the history (and served another table before)
+            conf = shared_conf
+            for k_ in ('mode', 'update_keys'):
+                conf.pop(k_, None)
+        else:
+            conf = {'resource-name': 'res.1'}
         if mode is not None:
             conf['mode'] = mode
         if dump['update_keys'] is not None:
